@@ -562,9 +562,14 @@ fn run_once(case: &Case, w: usize) -> (CaseReport, bool) {
         // `subscription_error` with its data, and delivery needs the user (documented). Then the manual retry must be accepted
         // and must deliver.
         if !done && run.violations.is_empty() {
-            let stuck: Vec<usize> = (0..case.towers as usize)
-                .filter(|t| run.track[*t].samples.last().map_or(false, |s| s.1 == "subscription_error" && s.2 > 0) && run.towers[*t].served().iter().any(|s| s.path == "/register" && matches!(s.behaviour, Behaviour::NotExtending(_))))
-                .collect();
+            // (the client says so itself in its log: "Registration receipt does not contain more slots ..." / "... contains a
+            // subscription expiry that is not higher ..."; besides the scripted non-extending receipts this happens when the
+            // client's idea of its slots is stale because an acknowledgement was lost with a kill)
+            let refused = |run: &Run, t: usize| {
+                let id = run.towers[t].id_hex();
+                run.p.as_ref().map_or(false, |p| p.log_lines().iter().any(|(_, l)| l.contains(&id) && l.contains("Registration receipt")))
+            };
+            let stuck: Vec<usize> = (0..case.towers as usize).filter(|t| run.track[*t].samples.last().map_or(false, |s| s.1 == "subscription_error" && s.2 > 0) && refused(&run, *t)).collect();
             if !stuck.is_empty() {
                 for t in &stuck {
                     let tid = run.towers[*t].id_hex();
@@ -588,6 +593,26 @@ fn run_once(case: &Case, w: usize) -> (CaseReport, bool) {
                 }
             }
         }
+        // the client's rule that a renewal must add to what it believes it has may keep refusing (documented policy): then the
+        // tower stays in subscription_error with its data, which is the truthful state
+        if !done && run.violations.is_empty() {
+            run.sample();
+            let refused_for_good = (0..case.towers as usize).all(|t| {
+                let last = run.track[t].samples.last().cloned();
+                match last {
+                    Some((_, st, n)) if st == "reachable" && n == 0 => true,
+                    Some((_, st, n)) if st == "subscription_error" && n > 0 => {
+                        let id = run.towers[t].id_hex();
+                        run.p.as_ref().map_or(false, |p| p.log_lines().iter().filter(|(_, l)| l.contains(&id) && l.contains("Registration receipt")).count() >= 2)
+                    }
+                    _ => false,
+                }
+            });
+            if refused_for_good {
+                run.classes.insert("renewal-keeps-being-refused-by-the-client's-own-rule".into());
+                done = true;
+            }
+        }
         if !done && run.violations.is_empty() {
             let what: Vec<String> = (0..case.towers as usize).map(|t| run.track[t].samples.last().map_or("?".into(), |s| format!("{} pending {}", s.1, s.2))).collect();
             run.violations.push(v("not-delivered-after-recovery", format!("{bound:.0} s after every tower recovered (max-retry-time {} s, auto-retry-delay {} s, 3 manager polls, {SLACK} s slack) the towers are shown {what:?}", run.opts.max_retry_time, run.opts.auto_retry_delay)));
@@ -600,6 +625,10 @@ fn run_once(case: &Case, w: usize) -> (CaseReport, bool) {
             if let Some(p) = run.p.as_mut() {
                 for t in 0..case.towers as usize {
                     let info = p.call("gettowerinfo", json!([run.towers[t].id_hex()]), Duration::from_secs(15)).unwrap_or(Value::Null);
+                    if info["status"].as_str() == Some("subscription_error") {
+                        // (left waiting for the user, see above: its data is pending, not acknowledged)
+                        continue;
+                    }
                     let rejected: BTreeSet<String> = run.towers[t].served().iter().filter(|s| matches!(s.behaviour, Behaviour::Reject(_))).filter_map(|s| s.body["appointment"]["locator"].as_str().map(|x| x.to_string())).collect();
                     run.track[t].rejected = rejected.clone();
                     for n in &run.answered {
